@@ -690,6 +690,9 @@ func runLedger(pid string, seed uint64, n int, out, stats string) {
 	dist := map[string]int{}
 	codes := map[string]int{}
 	checkAgree, txs, okTxs, failedCharged, redeliveries := 0, 0, 0, 0, 0
+	if pid == "C22" {
+		c22WrapScenario(&mon)
+	}
 	for i := 0; i < n; i++ {
 		s := seed*1000003 + uint64(i)
 		r := NewRng(s)
@@ -1092,6 +1095,42 @@ func c27Price(com types.Commission, t *ltx) *big.Int {
 	}
 	p := new(big.Int).Add(tp, new(big.Int).Mul(Z(int64(t.plen)), bi(com.PayloadByte)))
 	return p.Mul(p, Z(int64(t.gp)))
+}
+
+// c22WrapScenario: the corner left open by theorem C22_active_tickers_unique (Coq witness
+// C22_unique_refuted_at_version_wrap): a ticker whose archived versions reach 65535 (types.CoinVersion is uint16)
+// is recreated once more.  The archived state is given by the genesis (it is what 65535 recreations produce).
+func c22WrapScenario(mon *[]MonitorFailure) {
+	sym := types.StrToCoinSymbol("WRAPTICKER")
+	spec := &GenesisSpec{NAccounts: 4, Balance: pip(100000000), NVals: 2, ValOwnersFrom: 2}
+	spec.Mutate = func(st *types.AppState) {
+		owner := st.Accounts[0].Address
+		st.Coins = append(st.Coins,
+			types.Coin{ID: 1, Name: "old", Symbol: sym, Volume: pip(10).String(), MaxSupply: pip(10).String(), Version: 65535, OwnerAddress: nil, Mintable: false, Burnable: false},
+			types.Coin{ID: 2, Name: "cur", Symbol: sym, Volume: pip(10).String(), MaxSupply: pip(10).String(), Version: 0, OwnerAddress: &owner, Mintable: false, Burnable: false})
+		st.Accounts[0].Balance = append(st.Accounts[0].Balance, types.Balance{Coin: 1, Value: pip(10).String()}, types.Balance{Coin: 2, Value: pip(10).String()})
+	}
+	nd := newNode(spec)
+	defer nd.Cleanup()
+	r := nd.Block([][]byte{nd.MkTx(nd.Accts[0], transaction.TypeRecreateToken, transaction.RecreateTokenData{Name: "new", Symbol: sym, InitialAmount: pip(10), MaxSupply: pip(10), Mintable: false, Burnable: false}, 0, 0, 1, nil)}, nil)
+	if r.Panic != "" || len(r.Txs) != 1 {
+		*mon = append(*mon, MonitorFailure{What: "C22: version-wrap scenario could not be run: " + r.Panic, Key: "c22-scenario-broken"})
+		return
+	}
+	if r.Txs[0].Code != 0 {
+		return // refused: nothing to report
+	}
+	e := nd.Export()
+	var act []uint64
+	for _, cn := range e.Coins {
+		if cn.Symbol == sym && cn.Version == 0 {
+			act = append(act, cn.ID)
+		}
+	}
+	if len(act) != 1 {
+		*mon = append(*mon, MonitorFailure{What: fmt.Sprintf("C22: RecreateToken of a ticker whose archived versions reach 65535 was accepted (code 0) and the archived coin got version 65535+1 = 0 (uint16): ticker %s is now active for coins %v", sym.String(), act),
+			Key: "c22-version-wrap", Replay: "vharness c22 -n 0 (scenario version-wrap: genesis coins 1 (version 65535) and 2 (version 0) with one ticker, RecreateToken by the owner)"})
+	}
 }
 
 // c22Monitor: active tickers unique, ids dense and fresh, on the node's export.
